@@ -18,7 +18,8 @@ import (
 // declComments is the comment model of one top-level declaration.
 type declComments struct {
 	Canon    *ref.N
-	IsImport bool
+	IsImport  bool
+	ImportKey string
 	Doc      []string // comment group ending on the line before the declaration
 	Interior []string // comments inside [Pos, End]
 	Trailing []string // comments after End on the same line
@@ -47,6 +48,13 @@ func modelComments(src string) (*fileComments, error) {
 		dc := declComments{Canon: ref.StripParens(ref.Canon(d, false))}
 		if g, ok := d.(*ast.GenDecl); ok && g.Tok == token.IMPORT {
 			dc.IsImport = true
+			for _, sp := range g.Specs {
+				is := sp.(*ast.ImportSpec)
+				if is.Name != nil {
+					dc.ImportKey += is.Name.Name + " "
+				}
+				dc.ImportKey += is.Path.Value + ";" // the specs, whether or not the declaration has parentheses
+			}
 		}
 		fc.Decls = append(fc.Decls, dc)
 	}
@@ -203,12 +211,15 @@ func judgeComments(src, out string) (class, detail string, untouchedWithComments
 	}
 	// an import declaration that is still there with the same specs keeps its doc comment (a cgo preamble is one)
 	for _, ia := range a.Decls {
-		if !ia.IsImport || len(ia.Doc) == 0 {
+		if !ia.IsImport || len(ia.Doc)+len(ia.Interior)+len(ia.Trailing) == 0 {
 			continue
 		}
 		for _, ib := range b.Decls {
-			if ib.IsImport && ref.Equal(ia.Canon, ib.Canon) && joinC(ia.Doc) != joinC(ib.Doc) {
+			if ib.IsImport && ia.ImportKey == ib.ImportKey && joinC(ia.Doc) != joinC(ib.Doc) {
 				return "doc-comment-of-untouched-import-declaration", fmt.Sprintf("%q => %q", joinC(ia.Doc), joinC(ib.Doc)), 0, ""
+			}
+			if inA, inB := joinC(append(append([]string{}, ia.Interior...), ia.Trailing...)), joinC(append(append([]string{}, ib.Interior...), ib.Trailing...)); ib.IsImport && ia.ImportKey == ib.ImportKey && inA != inB {
+				return "comment-in-untouched-import-declaration", fmt.Sprintf("%q => %q", inA, inB), 0, ""
 			}
 		}
 	}
@@ -347,12 +358,16 @@ func commentDenseFileImports(g *gen.G, needImports bool) string {
 	hasImports := false
 	layout := r.Intn(7)
 	if needImports {
-		layout = []int{0, 2, 3, 4, 4, 7, 7}[r.Intn(7)]
+		layout = []int{0, 2, 3, 4, 4, 7, 7, 8, 8}[r.Intn(9)]
 	}
 	switch layout {
 	case 7:
 		// single-spec import declarations, the later ones documented (a cgo preamble is such a doc comment)
 		sb.WriteString("import \"os\"\n\n// #include <stdio.h>\nimport \"C\"\n\n" + cm("line") + "\nimport \"fmt\"\n\n")
+		hasImports = true
+	case 8:
+		// a removable import in front of a parenthesised single-spec group that has comments of its own
+		sb.WriteString("import \"os\"\n\n" + cm("line") + "\nimport (\n\t" + cm("line") + "\n\t\"fmt\" " + cm("line") + "\n)\n\n")
 		hasImports = true
 	case 4:
 		// several import declarations: adding or removing an import merges them
@@ -595,6 +610,11 @@ func runC17(ctx *core.Ctx, idx int) *core.Result {
 			res.Ob("untouched-declarations-with-comments-compared", n)
 			if n > 0 {
 				res.Sig(core.HashStr(src), pt)
+			}
+			if strings.Contains(class, "untouched-import-declaration") && strings.Count(pt, "\n@@\n")+strings.Count("\n"+pt, "\n@@\n") > 2 {
+				// known finding: in a multi-change patch the snapshot taken after an earlier change no longer knows
+				// the comments of the nodes below a declaration
+				class += "/after-an-earlier-change"
 			}
 			if class != "" {
 				res.Violate("C17/"+class, fmt.Sprintf("[%s path] %s", pnames[pi], detail), replayFiles(pt, src, run.Out))
